@@ -149,8 +149,48 @@ def gen_case(rng, idx, allow_assert, allow_vars):
     return case
 
 
+def seq_conditions(seq):
+    """the conjunction of sequences a THEN text with negated elements means (derived here, not taken from the parser):
+    every negated element closes an inverted sequence of the elements that had to match before it; the elements that have to
+    match form a sequence of their own unless a negated element comes after the last of them"""
+    conds, pos = [], []
+    for e in seq:
+        el = {"d": e["d"], "re": e["re"], "vars": []}
+        if e["neg"]:
+            conds.append({"inv": True, "elems": pos + [el]})
+        else:
+            pos = pos + [el]
+    if pos and not seq[-1]["neg"]:
+        conds.append({"inv": False, "elems": pos})
+    elif pos and not any(c["elems"][:-1] == pos for c in conds):
+        conds.append({"inv": False, "elems": pos})
+    return conds
+
+
+def gen_text_case(rng):
+    """a THEN sequence with negated elements as query TEXT (goes through query.Parse and Conditions.then)"""
+    plain = [r for r in REGEXES if r and "\\" not in r and '"' not in r]
+    n = rng.choice([2, 3, 3, 4, 5])
+    seq, used = [], set()
+    while len(seq) < n:
+        d, r = rng.randrange(2), rng.choice(plain)
+        if (d, r) in used:
+            continue
+        used.add((d, r))
+        seq.append({"neg": rng.random() < 0.45, "d": d, "re": r})
+    if not any(e["neg"] for e in seq):
+        seq[rng.randrange(len(seq))]["neg"] = True
+    text = " then ".join(("-" if e["neg"] else "") + ("sdata" if e["d"] else "cdata") + ':"' + e["re"] + '"' for e in seq)
+    vocab = [w for e in seq for w in REGEX_SAMPLES.get(e["re"], [])] * 3 + WORDS
+    streams = []
+    for _ in range(rng.choice([2, 3, 4])):
+        streams.append({"raw": [c for c in gen_payload(rng, rng.choice([1, 2, 3, 4, 5]), vocab) if c[1]], "conv": []})
+    return {"nconv": 0, "conv": "", "streams": streams, "or": [seq_conditions(seq)], "text": text + " sort:id", "seq": seq}
+
+
 def to_wire(case, cid):
     return {"id": cid, "nconv": case["nconv"], "conv": case["conv"], "sport": case.get("sport", 0),
+            "text": case.get("text", ""), "seq": case.get("seq", []),
             "streams": [{"sport": s.get("sport", 0), "raw": [{"d": d, "x": hx(x)} for d, x in s["raw"]],
                          "conv": [None if c is None else [{"d": d, "x": hx(x)} for d, x in c] for c in s["conv"]]} for s in case["streams"]],
             "or": case["or"]}
@@ -321,17 +361,19 @@ def minimise(case, exe, kind):
         v = judge(c, impl.get(0), model.get(0))
         return v is not None and v[0] == kind
     c = json.loads(json.dumps(case))
-    if len(c["or"]) > 1:
+    textual = bool(c.get("text"))      # conditions come from the query text: only streams and payload are reduced
+    if len(c["or"]) > 1 and not textual:
         for k in range(len(c["or"])):
             t = dict(c, **{"or": [c["or"][k]]})
             if fails(t):
                 c = t
                 break
-    c["or"][0] = ddmin(c["or"][0], lambda cs: fails(dict(c, **{"or": [cs]})), 40)
+    if not textual:
+        c["or"][0] = ddmin(c["or"][0], lambda cs: fails(dict(c, **{"or": [cs]})), 40)
     c["streams"] = ddmin(c["streams"], lambda ss: fails(dict(c, streams=ss)), 40)
     for k in range(len(c["or"][0])):
         cd = c["or"][0][k]
-        if len(cd["elems"]) > 1 and not has_vars(c):
+        if len(cd["elems"]) > 1 and not has_vars(c) and not textual:
             for cut in range(len(cd["elems"]) - 1, 0, -1):
                 t = json.loads(json.dumps(c))
                 t["or"][0][k]["elems"] = cd["elems"][:cut]
@@ -402,7 +444,7 @@ def main(tier, seed, replay=None):
             for fn in sorted(os.listdir(cdir)):
                 cases.append(json.load(open(os.path.join(cdir, fn)))["case"])
         for i in range(ncase):
-            cases.append(gen_case(rng, i, allow_assert=True, allow_vars=True))
+            cases.append(gen_text_case(rng) if i % 12 == 5 else gen_case(rng, i, allow_assert=True, allow_vars=True))
     impl, model, note, gosec, msec = execute(cases, exe, "main")
     nviol = 0
     stats = {"cases": len(cases), "streams": 0, "with_model": 0, "with_variables": 0, "with_assertions": 0, "selected_some": 0,
